@@ -14,6 +14,7 @@ CONSTANTS
   SrcPort = %(sport)d
   DstPort = %(dport)d
   Dst <- MCDst
+  Lens <- %(lens)s
   EmitCases = %(emit)s
 INVARIANTS Faithful Emit
 CHECK_DEADLOCK FALSE
@@ -34,9 +35,9 @@ def check(ctx):
     ctx.rule = ("model: Mirror.tla builds the IPv4 + UDP + payload packet for EVERY payload length 0..max-udp-size and both source "
                 "address forms and TLC checks Faithful (source = exporter, destination and ports as configured, IP and UDP length "
                 "fields consistent, payload identical); the as-built buffer of max-udp-size octets and the 4-octet source indexing "
-                "must be refuted. Code: for IPFIX and sFlow, max-udp-size in {28, 64, 1500 (thorough: 9000)}, the real worker's "
+                "must be refuted. Code: for IPFIX and sFlow, max-udp-size in {28, 64, 1500, 65535 (thorough also 9000)}, the real worker's "
                 "mirror branch, the real dispatcher and the real mirror worker (raw socket) are run and every TLC case (all lengths "
-                "for the small sizes, boundary lengths 0,1,2,max-29..max for the large ones; 4- and 16-octet exporter addresses) is "
+                "for the small sizes, boundary lengths 0,1,2,max-29..max for the large ones, for 65535 the lengths around 2^14, 2^15-28, 2^15 and 65507 = the most an IPv4 packet carries; 4- and 16-octet exporter addresses) is "
                 "fed through the collector's queue (for max-udp-size 64 after 2200 datagrams from an IPv6 exporter, which an IPv4 target "
                 "cannot take: MirrorDispatch.tla); the mirrored packet is captured with its IP header on a raw receive socket and "
                 "compared with the model's packet. One evaluation = one datagram; non-trivial = n > 0; distinct by (protocol, size, n, form). "
@@ -45,21 +46,22 @@ def check(ctx):
                 "(trace validated by PipelineTrace.tla; Pipeline.tla WMirror / MirrorSend) and 4 in parallel under the race detector.")
     ctx.assumptions += ["raw sockets need CAP_NET_RAW (present in this sandbox); exporter addresses are taken from 127.0.0.0/8 so that loopback delivers them",
                         "the IP identification and header checksum are filled in by the kernel and not compared"]
-    ctx.tlc_must_fail("MirrorMC", "asbuilt.cfg", files={"asbuilt.cfg": CFG % dict(max=64, cap=64, p4="FALSE", sport=55117, dport=4172, emit="FALSE")}, expect="Faithful", workers=2)
-    ctx.tlc_must_fail("MirrorMC", "src4.cfg", files={"src4.cfg": CFG % dict(max=64, cap=92, p4="TRUE", sport=55117, dport=4172, emit="FALSE")}, expect="Faithful", workers=2)
+    ctx.tlc_must_fail("MirrorMC", "asbuilt.cfg", files={"asbuilt.cfg": CFG % dict(max=64, cap=64, p4="FALSE", sport=55117, dport=4172, emit="FALSE", lens="AllLens")}, expect="Faithful", workers=2)
+    ctx.tlc_must_fail("MirrorMC", "src4.cfg", files={"src4.cfg": CFG % dict(max=64, cap=92, p4="TRUE", sport=55117, dport=4172, emit="FALSE", lens="AllLens")}, expect="Faithful", workers=2)
     # the dispatcher (extension): datagrams of the target's address family keep being mirrored whatever else arrives
     ctx.tlc_model("MirrorDispatch", "MirrorDispatch.cfg", workers=4)
     ctx.tlc_must_fail("MirrorDispatch", "MirrorDispatchAsBuilt.cfg", workers=4)
     drv = ctx.go_build_test("vflow", ["vflow/mirror_verif_test.go"])
     d = ctx.subdir("c16")
-    sizes = [28, 64, 1500] + ([9000] if thorough else [])
+    sizes = [28, 64, 1500] + ([9000] if thorough else []) + [65535]
     for proto in ("ipfix", "sflow"):
         for mx in sizes:
             port = free_port()
             r = ctx.tlc_model("MirrorMC", "run.cfg", want_cases=True, workers=4,
-                              files={"run.cfg": CFG % dict(max=mx, cap=mx + 28, p4="FALSE", sport=SPORT[proto], dport=port, emit="TRUE")})
+                              files={"run.cfg": CFG % dict(max=mx, cap=mx + 28, p4="FALSE", sport=SPORT[proto], dport=port, emit="TRUE",
+                                                          lens="AllLens" if mx < 65535 else "BigLens")}, heap="8g")
             cases = sorted(r.cases, key=lambda c: (c["n"], c["form"]))
-            if mx > 64:
+            if 64 < mx < 65535:
                 keep = {0, 1, 2, 3, 27, 28, 29, mx // 2, mx - 30, mx - 29, mx - 28, mx - 27, mx - 1, mx}
                 if thorough:
                     keep |= set(range(0, mx + 1, 97))
@@ -73,6 +75,10 @@ def check(ctx):
             variant = (sizes.index(mx) + (0 if proto == "ipfix" else 1) + ctx.seed) % 3
             other = [mx, 2 * mx + 100, max(28, mx // 2)][variant] if not thorough else None
             runs = [(other, 1 if variant != 1 else 6)] if not thorough else [(mx, 1), (2 * mx + 100, 6), (max(28, mx // 2), 3)]
+            if mx == 65535:
+                # one at a time: six datagrams of 32-64 KiB back to back overflow the receive buffer of the TARGET's socket
+                # (the kernel's default of 208 KiB), which is not the mirror's doing
+                runs = [(o, 1) for o, _ in runs[:1]]
             for other, burst in runs:
                 for f in (cout, prog):
                     if os.path.exists(f):
